@@ -245,3 +245,17 @@ func resetClientGlobals() {
 		*p = 0
 	}
 }
+
+// resetServerGlobals zeroes the package-level user cache (OsUsers and its
+// sync.Once), so that every execution starts from the same state.
+func resetServerGlobals() {
+	g := go9p.VsGlobals()
+	for _, n := range []string{"OsUsers", "once"} {
+		if p, ok := g[n]; ok {
+			v := reflect.ValueOf(p)
+			if v.Kind() == reflect.Ptr && v.Elem().CanSet() {
+				v.Elem().Set(reflect.Zero(v.Elem().Type()))
+			}
+		}
+	}
+}
